@@ -7,8 +7,8 @@ HERE = os.path.dirname(os.path.dirname(os.path.abspath(__file__)))
 tier = sys.argv[1] if len(sys.argv) > 1 else "quick"
 prefix = sys.argv[2] if len(sys.argv) > 2 else ""
 EXTRA = {  # other checks whose statement the change also contradicts (run for the record)
-    "C01": ["C03"], "C02": ["C03"], "C03": ["C01"], "C04": ["C06"], "C05": ["C04"], "C06": [], "C07": ["C09"], "C09": [],
-    "C10": ["C12"], "C11": ["C17"], "C12": ["C10", "C11"], "C13": ["C14"], "C14": ["C13"], "C15": ["C16"], "C16": [],
+    "C01": ["C03", "C02"], "C02": ["C03"], "C03": ["C01"], "C04": ["C06"], "C05": ["C04"], "C06": [], "C07": ["C09"], "C09": [],
+    "C10": ["C12"], "C11": ["C17"], "C12": ["C10", "C11", "C17"], "C13": ["C14"], "C14": ["C13"], "C15": ["C16"], "C16": [],
     "C17": [], "C18": ["C06"], "C19": ["C09"],
 }
 def sh(*a, **k):
